@@ -415,6 +415,8 @@ class Ref:
             self.mts[e["orig"]]["laws"] = [x.upper() for x in e["laws"]]
         elif k == "tr_degrees":
             self.trs[e["orig"]]["star"] = bool(e["value"])
+        elif k == "surface_transform":
+            self.surfaces[e["orig"]]["pointer"] = None if e["transform"] is None else self.trs[e["transform"]]["number"]
         else:
             raise ValueError(k)
 
@@ -504,6 +506,7 @@ def _refs_number(tokens_, numbers, bi):
 _OWN = {"cell_number": "cell", "density": "cell", "importance": "cell", "volume": "cell", "material_assign": "cell",
         "cell_universe": "cell", "fill_universe": "cell", "lattice": "cell",
         "surface_number": "surface", "surface_constant": "surface", "boundary": "surface",
+        "surface_transform": "surface",
         "material_number": "material", "fraction": "material", "thermal_law": "material",
         "transform_number": "transform", "tr_displacement": "transform", "tr_degrees": "transform"}
 
@@ -638,6 +641,12 @@ def _touched_card_check(cu, ce, bi, exps, applied):
             return {"kind": "unexplained-change", "before": cu.text, "after": ce.text, "token": [hu, he]}
     if head and head.group(2) == "MT" and any(e["kind"] == "thermal_law" for e in mine):
         return None          # every other token of the card is the edited list of laws
+    if bi == 1 and any(e["kind"] == "surface_transform" for e in mine):
+        # the transform pointer (second token, an integer) is the edited quantity: it may appear, change or go
+        if len(tu) > 1 and re.match(r"^[+-]?\d+$", tu[1]):
+            tu = tu[:1] + tu[2:]
+        if len(te) > 1 and re.match(r"^[+-]?\d+$", te[1]):
+            te = te[:1] + te[2:]
     values = [ex[4] for ex in exps if ex[0] == "value"]
 
     def is_edit_value(tok):
